@@ -187,7 +187,11 @@ def run_one(desc):
                     hits.append(hit("C04/nested-submit-blocks:lock-held-by-sleeper:%s" % whose, "a submit() issued from inside %s (thread %s) "
                                     "blocks for ever on lock %s (%s) while %r keep re-arming a timed wait (layers %r, base %s)"
                                     % (pend[tid], name, park[1], whose, sleepers, [l[0] for l in desc["layers"]], desc["base"])))
-                elif sleepers:
+                elif sleepers and role != "client":
+                    # (a CLIENT thread queueing behind a lock whose holder sleeps in a blocking submit() is not evidence of a library
+                    # deadlock: when the holder is, say, a pool's only worker that submitted from a done-callback to a full bounded
+                    # queue, the program has starved itself - nothing would move if the lock were free either.  A library or pool
+                    # thread stuck behind such a lock is different: it is one of those that could have made the room.)
                     hits.append(hit("C04/deadlock:lock-held-by-sleeper:%s" % whose, "thread %s blocks for ever on lock %s (%s) while %r keep "
                                     "re-arming a timed wait (layers %r, base %s)"
                                     % (name, park[1], whose, sleepers, [l[0] for l in desc["layers"]], desc["base"])))
